@@ -98,6 +98,7 @@ func c16(r *core.Report) {
 	fam, adders := internalizeFamily(p)
 	c16AddFirst(r, adders)
 	c16VisitedCtx(r, adders)
+	c16EarlyExit(r)
 
 	units, _ := refUnits(p, "openapi3")
 	r.RunRule("C16.cover", "internalising reaches every reference position: for every path of fields from a unit to a field that can hold a $ref (same enumeration as C02.cover), the unit's deref function hands that field to the add*ToSpec of the position's wrapper (path items: to derefPaths); units without reference positions of their own need no walker", 29, func() {
@@ -1000,4 +1001,80 @@ func visitedTests(p *core.Prog) map[*types.Func]bool {
 		}
 	}
 	return visitedTest
+}
+
+// c16EarlyExit: a shortcut that leaves a deref function before its descents ("nothing below this
+// object") has to look at everything the function would have walked. A condition that lists the
+// sub-objects one by one and forgets one turns every object that has only that one into a leaf.
+func c16EarlyExit(r *core.Report) {
+	p := r.Prog
+	info := p.Pkg("openapi3").TypesInfo
+	r.RunRule("C16.earlyexit", "a leaf shortcut covers every descent: in every function of internalize_refs.go whose first statements return (or continue) under a condition that tests fields of the object being walked for emptiness, each field of that object that the rest of the function reads is among the fields tested", 5, func() {
+		n := 0
+		for _, d := range p.AllDecls("openapi3") {
+			if d.Body == nil || !strings.HasSuffix(p.Fset.Position(d.Pos()).Filename, "internalize_refs.go") {
+				continue
+			}
+			n++
+			k := 0
+			for _, st := range d.Body.List {
+				is, ok := st.(*ast.IfStmt)
+				if !ok || is.Else != nil || !core.Terminates(info, is.Body.List) {
+					continue
+				}
+				// fields tested, by root object
+				tested := map[types.Object]map[string]bool{}
+				ast.Inspect(is.Cond, func(m ast.Node) bool {
+					if sel, ok := m.(*ast.SelectorExpr); ok {
+						if f := core.FieldSel(info, sel); f != nil {
+							if id, ok := ast.Unparen(sel.X).(*ast.Ident); ok {
+								o := info.ObjectOf(id)
+								if tested[o] == nil {
+									tested[o] = map[string]bool{}
+								}
+								tested[o][f.Name()] = true
+							}
+						}
+					}
+					return true
+				})
+				for o, fs := range tested {
+					if len(fs) < 2 {
+						continue // a single nil test (x.Value == nil) is not a leaf shortcut
+					}
+					k++
+					key := fmt.Sprintf("earlyexit:%s#%d", core.FuncName(d), k)
+					var missing []string
+					seenF := map[string]bool{}
+					ast.Inspect(d.Body, func(m ast.Node) bool {
+						sel, ok := m.(*ast.SelectorExpr)
+						if !ok || sel.Pos() < is.End() {
+							return true
+						}
+						f := core.FieldSel(info, sel)
+						if f == nil {
+							return true
+						}
+						if id, ok := ast.Unparen(sel.X).(*ast.Ident); ok && info.ObjectOf(id) == o && !fs[f.Name()] && !seenF[f.Name()] {
+							seenF[f.Name()] = true
+							missing = append(missing, f.Name())
+						}
+						return true
+					})
+					sort.Strings(missing)
+					if len(missing) > 0 {
+						r.Bad(key, p.Pos(is.Pos()), fmt.Sprintf("%s leaves early when %s, but goes on to walk %s.%s, which the condition does not look at: an object that has only that is treated as a leaf, and the references below it are never rewritten", core.FuncName(d), core.ExprStr(is.Cond), o.Name(), strings.Join(missing, ", "+o.Name()+".")))
+					} else {
+						r.OK(key, p.Pos(is.Pos()), "the shortcut tests every field the function walks")
+					}
+				}
+			}
+			if k == 0 {
+				r.OK("earlyexit:"+core.FuncName(d), p.Pos(d.Pos()), "no leaf shortcut")
+			}
+		}
+		if n == 0 {
+			core.Fail("no function found in internalize_refs.go")
+		}
+	})
 }
